@@ -54,9 +54,19 @@ def make_heap(case, classes):
 
 
 class B:
-    def __init__(self, case, classes, objs, form):
+    def __init__(self, case, classes, objs, form, lists=None, phase=1):
         self.case, self.classes, self.objs, self.form = case, classes, objs, form
         self.handles, self.cls_of_key = {}, {}
+        # case['edited']: every domain is ONE list object per term, first filled with other members (phase 0: an earlier query is built
+        # over it), then edited in place to the members of the case (phase 1: the query that is compared)
+        self.lists, self.phase = lists, phase
+
+    def domain(self, p):
+        if self.lists is None:
+            return [self.objs[i] for i in p['d']]
+        if p['x'] not in self.lists:
+            self.lists[p['x']] = [self.objs[i] for i in p.get('d0', p['d'])]
+        return self.lists[p['x']]
 
     def const(self, v):
         return self.objs[v['o']] if isinstance(v, dict) else v
@@ -81,7 +91,7 @@ class B:
 
     def term(self, p, top):
         cls = self.classes[p['T']]
-        dom = [self.objs[i] for i in p['d']]
+        dom = self.domain(p)
         self.cls_of_key[p['x']] = p['T']
         names = sig(cls)
         if self.form == 'pred':
@@ -159,9 +169,31 @@ def run(case):
                 c.clear()
             Variable._cache_.clear()
 
+        lists = {} if case.get('edited') else None
+
+        def all_terms(ps):
+            for p in ps:
+                yield p
+                for a in p['args']:
+                    v = a[-1]
+                    if v[0] == 'nest':
+                        yield from all_terms([v[1]])
+
         def build():
+            if lists is not None:
+                # an EARLIER query over the same list objects (built, and half of the time evaluated), then the lists are edited in place
+                with symbolic_mode():
+                    q0, _ = B(case, classes, objs, form, lists, 0).query()
+                if case['edited'] == 'evaluated':
+                    try:
+                        list(q0.evaluate())
+                    except Exception:
+                        pass
+                for p in all_terms(case['terms']):
+                    if p['x'] in lists:
+                        lists[p['x']][:] = [objs[i] for i in p['d']]
             with symbolic_mode():
-                return B(case, classes, objs, form).query()
+                return B(case, classes, objs, form, lists, 1).query()
         key = form + '_' + cfg
         try:
             q, sel = build()
